@@ -124,14 +124,14 @@ func (r *Run) RunBatches(n, batch, workers int, env []string, perBatchTimeout ti
 					}
 					if !has {
 						// died before the first case / after the last one
-						results <- result{stdout: res.Stdout, out: &BatchOutcome{Case: -1, Kind: "death", Exit: res.Exit, Stderr: Tail(res.Stderr, 3000)}}
+						results <- result{stdout: res.Stdout, out: &BatchOutcome{Case: -1, Kind: "death", Exit: res.Exit, Stderr: headTail(res.Stderr)}}
 						break
 					}
 					kind := "death"
 					if res.TimedOut {
 						kind = "hang"
 					}
-					results <- result{stdout: res.Stdout, out: &BatchOutcome{Case: last, Kind: kind, Exit: res.Exit, Stderr: Tail(res.Stderr, 3000), CPU: res.UserCPU + res.SysCPU, Elapsed: res.Elapsed, Signaled: res.Signaled}}
+					results <- result{stdout: res.Stdout, out: &BatchOutcome{Case: last, Kind: kind, Exit: res.Exit, Stderr: headTail(res.Stderr), CPU: res.UserCPU + res.SysCPU, Elapsed: res.Elapsed, Signaled: res.Signaled}}
 					from = last + 1
 				}
 			}
@@ -165,3 +165,11 @@ func (r *Run) RunBatches(n, batch, workers int, env []string, perBatchTimeout ti
 
 // IsBatchChild reports whether this process is a batch child.
 func IsBatchChild() bool { return os.Getenv("VERIF_CHILD") == "batch" }
+
+// headTail keeps the beginning (where Go prints the fatal error) and the end of a long stderr.
+func headTail(s string) string {
+	if len(s) <= 4000 {
+		return s
+	}
+	return s[:2000] + "\n…\n" + s[len(s)-2000:]
+}
